@@ -346,6 +346,15 @@ theorem read_intact (c : Cfg) (code : Code) (H : Bytes → Bytes) (wf : WF c cod
     simp only [Function.comp, Prod.map, id]
     exact openShard_stream c code H wf k (List.mem_range.1 hk) _
   rw [hreaders]
+  have hopen : ¬ ((readersAt c code H 0 (stripesOf c b)).filter Option.isSome).length < c.d := by
+    have : (readersAt c code H 0 (stripesOf c b)).filter Option.isSome = readersAt c code H 0 (stripesOf c b) := by
+      apply List.filter_eq_self.2
+      intro a ha
+      unfold readersAt at ha
+      obtain ⟨k, _, rfl⟩ := List.mem_map.1 ha
+      rfl
+    rw [this]; simp [readersAt, Cfg.n]
+  simp only [hopen, decide_false, Bool.and_false, Bool.false_eq_true, if_false]
   have hheal : (readersAt c code H 0 (stripesOf c b)).map Option.isNone = List.replicate c.n false := by
     unfold readersAt
     rw [List.map_map]
@@ -367,6 +376,7 @@ stream. With the repair it answers not-found and writes nothing. -/
 theorem read_absent (c : Cfg) (code : Code) (H : Bytes → Bytes) (fix : Fix) :
     read c code H fix (List.replicate c.n none) =
       if fix.notFoundWhenAllMissing then .notFound
+      else if fix.failWhenTooFewOpen && decide (0 < c.d) then .result ⟨[], true, List.replicate c.n none, []⟩
       else .result ⟨[], false, (List.range c.n).map (fun k => some (shardStream c code H k [])), []⟩ := by
   unfold read
   have hall : (List.replicate c.n (none : Option Bytes)).all Option.isNone = true := by simp
@@ -380,6 +390,11 @@ theorem read_absent (c : Cfg) (code : Code) (H : Bytes → Bytes) (fix : Fix) :
       · simp
       · intro i h1 h2; simp [openShard]
     rw [hreaders]
+    have hnone : ((List.replicate c.n (none : Option Bytes)).filter Option.isSome).length = 0 := by simp
+    rw [hnone]
+    by_cases hg : (fix.failWhenTooFewOpen && decide (0 < c.d)) = true
+    · simp [hg]
+    simp only [hg, Bool.false_eq_true, if_false]
     have hstream : ∀ k, shardStream c code H k [] = shardHeader c k := by
       intro k; simp [shardStream, stripesOf, chunks_nil, framesFrom]
     simp only [List.map_replicate, Option.isNone_none, List.length_replicate, hstream]
